@@ -292,12 +292,14 @@ func lessTotalOn(info *types.Info, params *ast.FieldList, body *ast.BlockStmt, f
 	if !ok || (be.Op != token.LSS && be.Op != token.GTR) {
 		return false, "the last word is not a strict comparison"
 	}
+	asg := core.Assigns(info, body)
 	side := func(e ast.Expr) types.Object {
 		se, ok := ast.Unparen(e).(*ast.SelectorExpr)
 		if !ok || se.Sel.Name != field {
 			return nil
 		}
-		ix, ok := ast.Unparen(se.X).(*ast.IndexExpr)
+		// x[i].K, or a.K with the local a := x[i]
+		ix, ok := ast.Unparen(core.Origin(info, asg, se.X)).(*ast.IndexExpr)
 		if !ok {
 			return nil
 		}
